@@ -11,6 +11,7 @@ import (
 type OutPort struct {
 	ins        []*InPort
 	writers    map[*process.Process]*packet.Writer
+	listening  map[*process.Process]*packet.Writer
 	openHooks  OpenHooks
 	closeHooks CloseHooks
 	listeners  Listeners
@@ -20,7 +21,8 @@ type OutPort struct {
 // NewOut creates and returns a new OutPort instance.
 func NewOut() *OutPort {
 	return &OutPort{
-		writers: make(map[*process.Process]*packet.Writer),
+		writers:   make(map[*process.Process]*packet.Writer),
+		listening: make(map[*process.Process]*packet.Writer),
 	}
 }
 
@@ -144,7 +146,7 @@ func (p *OutPort) Open(proc *process.Process) *packet.Writer {
 
 	verifYield(11)
 	p.mu.RLock()
-	writer, ok := p.writers[proc]
+	writer, ok := p.lookup(proc)
 	p.mu.RUnlock()
 	if ok {
 		return writer
@@ -153,7 +155,7 @@ func (p *OutPort) Open(proc *process.Process) *packet.Writer {
 	verifYield(13)
 	p.mu.Lock()
 
-	writer, ok = p.writers[proc]
+	writer, ok = p.lookup(proc)
 	if ok {
 		p.mu.Unlock()
 		return writer
@@ -166,10 +168,26 @@ func (p *OutPort) Open(proc *process.Process) *packet.Writer {
 	openHooks := p.openHooks
 	listeners := p.listeners
 
+	// The listeners obtain the writer with their own Open: it must stay findable for them
+	// even if the port is closed before they get there.
+	if len(listeners) > 0 {
+		p.listening[proc] = writer
+	}
+
 	p.mu.Unlock()
 
 	openHooks.Open(proc)
-	go listeners.Accept(proc)
+	go func() {
+		listeners.Accept(proc)
+
+		if len(listeners) > 0 {
+			p.mu.Lock()
+			if p.listening[proc] == writer {
+				delete(p.listening, proc)
+			}
+			p.mu.Unlock()
+		}
+	}()
 
 	verifYield(12)
 	proc.AddExitHook(process.ExitFunc(func(_ error) {
@@ -186,6 +204,15 @@ func (p *OutPort) Open(proc *process.Process) *packet.Writer {
 	}
 
 	return writer
+}
+
+// lookup returns the writer of the process, or the one its listeners are still running for.
+func (p *OutPort) lookup(proc *process.Process) (*packet.Writer, bool) {
+	if writer, ok := p.writers[proc]; ok {
+		return writer, true
+	}
+	writer, ok := p.listening[proc]
+	return writer, ok
 }
 
 // Close closes all writers and clears linked input ports, hooks, and listeners.
